@@ -8,7 +8,7 @@ from .relational_common import NAT_LEAN, NAT_LEAN_NH, NAT_NOTE, INSTANCE_NOTE
 def check(tier, seed):
     d = Decision("C14", tier, seed)
     t = 60000 if tier == "thorough" else 20000
-    sub = [("contracts.bd_guards", "unit_check_biorthonormality", {"nsub": n, "timeout_ms": t}) for n in (1, 3)] + [("contracts.bd_guards", "unit_normalize_subspaces", {"timeout_ms": t})]
+    sub = [("contracts.bd_guards", "unit_check_biorthonormality", {"nsub": n, "kind": k, "timeout_ms": t}) for n, k in ((1, "ndarray"), (3, "mixed"), (2, "sympy-mutable"), (2, "sympy-immutable"))] + [("contracts.bd_guards", "unit_normalize_subspaces", {"timeout_ms": t})]
     d.add_units(fold_canaries(run_units(specs_keys(tier) + specs_projection(tier) + specs_blocks(tier) + specs_solver(tier) + specs_masks(tier) + sub + specs_linalg_misc(tier))))
     d.add_lean(NAT_LEAN + NAT_LEAN_NH + ["PV.Laws.coeff_hom_law", "PV.Laws.unitary_law", "PV.Laws.perm_law"])
     d.assumptions += [NAT_NOTE,
